@@ -69,6 +69,8 @@ def gen_cases(tier, seed):
     cases = [dict(kind="op", spec=s, ds=ds, db=db) for s in _thin(opcat.leaf_specs(tier), 30 if T else 12, 120 if T else 28)]
     for t in programs.trees(programs.LEAVES, 1):
         cases.append(dict(kind="op", spec=t, ds=ds, db=db))
+    for t in programs.nary_trees(programs.SUB5, (3,), all_axes=False):
+        cases.append(dict(kind="op", spec=t, ds=ds, db=db))
     if T:
         for t in programs.trees(programs.SUB5, 2, all_axes=False, scalars=programs.SCALARS[:2]):
             cases.append(dict(kind="op", spec=t, shallow=True))
